@@ -12,7 +12,7 @@ for order in (["a", "b"], ["b", "a"]):
                 ["hello", "s", {"mod_id": 12}], ["drain"], ["sub", "s", 1234], ["drain"],
                 ["pub", "a", 1234, 0, 0, 8], ["pub", "b", 1234, 0, 0, 8], ["round", {"order": order}]])
         rx = sc.received()
-        got = [sc.pubs[int(f.send_time)]["by"] for f in rx["s"]["frames"] if int(f.send_time) in sc.pubs]
+        got = [sc.pubs[f.pid]["by"] for f in rx["s"]["frames"] if f.pid in sc.pubs]
         seen.add(tuple(got))
         assert got == order, (got, order)
         assert rig.crash is None
